@@ -738,6 +738,18 @@ func fillUnmodelled(ptr interface{}, r *prng.Rand, modelled ...string) int {
 	return n
 }
 
+// thenScribble hands decode a private copy of b and overwrites that copy as soon as decode
+// has returned: the octets were the caller's receive buffer, which is reused for the next
+// message. A decoder that keeps a window of its input now holds a5 a5 a5 ...
+func thenScribble(decode func([]byte) error, b []byte) error {
+	in := cloneB(b)
+	err := decode(in)
+	for i := range in {
+		in[i] = 0xa5
+	}
+	return err
+}
+
 // capacityIndependent checks "what a parser makes of n octets depends on those n
 // octets only": parse gets the input once in a slice of exactly its length and
 // once as the prefix of a larger array whose spare capacity holds plausible
